@@ -360,6 +360,6 @@ def run(ctx):
     outs = ex.run(bp, [PTR("BAY")], {("BAY", F("bay", "dirty")): PTR("BC0"), ("BC0", F("bay_chan", "next")): NULL})
     ctx.check(not [o for o in outs if o.kind == "ret" and o.ret == INT(0)], "R6.4", "bay_propagate:callback-failure",
               bp.loc(), "bay_propagate succeeds although a callback failed")
-    ctx.rule("R6.7", "the read side of a channel: chan_read yields the value last set / the top of the stack / null for an empty stack, chan_flush clears the dirty mark and remembers that value, value_is_equal compares type and payload (what the multiplexers and the trace writers see)")
+    ctx.rule("R6.7", "the read side of a channel: chan_read yields the value last set / the top of the stack / null for an empty stack, chan_flush clears the dirty mark and remembers that value, value_is_equal compares type and payload (what the multiplexers and the trace writers see); mux_init/mux_set_input register the select callback enabled and the input callbacks disabled and refuse the output as an input; the bay calls exactly the enabled callbacks of a phase, in order, with (channel, argument), and a failing callback fails the propagation")
     from rules import infra
-    infra.check_value(ctx, 'R6.7'); infra.check_chan_read(ctx, 'R6.7')
+    infra.check_value(ctx, 'R6.7'); infra.check_chan_read(ctx, 'R6.7'); infra.check_mux_setup(ctx, 'R6.7'); infra.check_bay(ctx, 'R6.7')
